@@ -311,6 +311,7 @@ fn parse_number<'a, T: Iterator<Item = &'a Token>>(
     let mut exactness = Exactness::Unspecified;
     let mut radix = 10;
 
+    let prefixed = token.token_type == NumberPrefix;
     while token.token_type == NumberPrefix {
         match token.span(text) {
             "#e" => exactness = Exactness::Exact,
@@ -327,6 +328,13 @@ fn parse_number<'a, T: Iterator<Item = &'a Token>>(
     let span = token.span(text);
     match Number::parse_with_exactness(span, exactness, radix) {
         Some(num) => Ok(Cell::Number(num)),
+        // A radix or exactness prefix must be followed by a number: whatever
+        // token follows it (a bracket, a string, an identifier) is not a symbol
+        // by that spelling.
+        None if prefixed => Err(Error::SyntaxError(format!(
+            "{} after a number prefix is not a number",
+            span
+        ))),
         None => Ok(symbol_from_spelling(span)),
     }
 }
